@@ -203,15 +203,27 @@ fn constellation<S: SigT>(rep: &mut Report, name: &str, msm4: u16, table: &'stat
     rep.sample(json!({"constellation":name,"forward_map":fwd.iter().map(|(d,p)| format!("{}{}={}", d.0, d.1, p)).collect::<Vec<_>>()}));
 }
 
+/// a panic anywhere in the subject's comparison / validity code is a violation, not a harness crash
+fn guarded(rep: &mut Report, name: &str, f: impl FnOnce(&mut Report)) {
+    let mut tmp = Report::new();
+    match catch(|| f(&mut tmp)) {
+        Ok(()) => rep.merge(tmp),
+        Err(p) => {
+            rep.merge(tmp);
+            rep.violation("C18", format!("{}:panic:{}", name, p.location), format!("{}: is_valid / cmp / encode of a signal descriptor panicked at {}: {}", name, p.location, p.message), 0, json!({"kind":"sig_table","constellation":name}));
+        }
+    }
+}
+
 pub fn c18(ctx: &Ctx) -> (Report, Meta) {
     let mut rep = Report::new();
-    constellation::<GpsSigId>(&mut rep, "GPS", 1074, SIG_GPS);
-    constellation::<GloSigId>(&mut rep, "GLONASS", 1084, SIG_GLO);
-    constellation::<GalSigId>(&mut rep, "Galileo", 1094, SIG_GAL);
-    constellation::<SbasSigId>(&mut rep, "SBAS", 1104, SIG_SBAS);
-    constellation::<QzssSigId>(&mut rep, "QZSS", 1114, SIG_QZSS);
-    constellation::<BdsSigId>(&mut rep, "BeiDou", 1124, SIG_BDS);
-    constellation::<NavicSigId>(&mut rep, "NavIC", 1134, SIG_NAVIC);
+    guarded(&mut rep, "GPS", |r| constellation::<GpsSigId>(r, "GPS", 1074, SIG_GPS));
+    guarded(&mut rep, "GLONASS", |r| constellation::<GloSigId>(r, "GLONASS", 1084, SIG_GLO));
+    guarded(&mut rep, "Galileo", |r| constellation::<GalSigId>(r, "Galileo", 1094, SIG_GAL));
+    guarded(&mut rep, "SBAS", |r| constellation::<SbasSigId>(r, "SBAS", 1104, SIG_SBAS));
+    guarded(&mut rep, "QZSS", |r| constellation::<QzssSigId>(r, "QZSS", 1114, SIG_QZSS));
+    guarded(&mut rep, "BeiDou", |r| constellation::<BdsSigId>(r, "BeiDou", 1124, SIG_BDS));
+    guarded(&mut rep, "NavIC", |r| constellation::<NavicSigId>(r, "NavIC", 1134, SIG_NAVIC));
     rep.distinct_nontrivial = rep.outcomes.iter().filter(|(k, _)| k.ends_with("recognised-descriptors")).map(|(_, v)| *v).sum();
     let _ = ctx;
     let meta = Meta {
